@@ -43,7 +43,7 @@ Section Buf.
   Proof.
     intros x left s W L G NB. unfold buf_body, BInv.
     destruct (kcall_good lens sh nb0 1 [(O, O, (len - 0)%nat)] x s O W G NB (buf_ranges_ok L) eq_refl
-                         buf_positions) as (r & s1 & E & NB1 & [(R & NZ & LE & G1) | (m & R & M & E0 & G1)]).
+                         buf_positions) as (r & s1 & E & NB1 & [(R & NZ & LE & _ & G1) | (m & R & M & E0 & G1)]).
     - (* the call failed *)
       rewrite E. subst r. change (negb (-1 =? -1)) with false. cbv beta iota.
       destruct (classify_cases (s_errno s1)) as [[K Ee] | [[K Ee] | [K [Ne1 Ne2]]]]; rewrite K.
@@ -115,12 +115,6 @@ Section Buf.
 End Buf.
 
 (** a whole buffer call *)
-Lemma good_init : forall lens sh c, Good lens sh (c_nb c) false (init_st c) O.
-Proof.
-  intros lens sh c. unfold Good, GoodL, init_st. cbn [s_reqs s_moved s_waits fold_left].
-  repeat split; auto; try lia.
-Qed.
-
 Lemma run_buf_ok : forall d c, forallb wf_script_entry (c_script c) = true ->
   match run_buf d (c_limit c) (hd O (c_lens c)) (c_script c) (init_st c) with
   | (ORet r, s) => Final [hd O (c_lens c)] (SBuf d) (c_nb c) r s
